@@ -162,6 +162,15 @@ def check(pid, tier):
         if r["rc"] != 0 or not got_stats:
             key = "harness-failure|" + j.harness + "|rc=" + str(r["rc"])
             violations[key] = dict(count=1, rec=dict(kind="harness-failure", rc=r["rc"], stderr=r["err"][-3000:], stdout_tail=r["out"][-1000:]), job=j)
+    # ---- python-side probes (compile probes etc.)
+    if "extra" in spec:
+        ev_viol, ev_stats, ev_samples, ev_notes = spec["extra"](tier)
+        for k, rec in ev_viol.items():
+            violations[k] = dict(count=1, rec=rec, job=Job("probe", cfg="dbg"))
+        for k, val in ev_stats.items():
+            stats[k] = stats.get(k, 0) + val
+        samples.extend(ev_samples)
+        notes.extend(["vacuous control: " + x for x in ev_notes])
     # ---- classify
     known = load_known()
     kn = [k for k in known.get("known", []) if k["property"] == pid]
